@@ -20,13 +20,14 @@ TRUSTED = ["modelled not verified: numpy element-wise functions, CPython float a
 
 
 def correspond(ctx):
-    return X.run(ctx, "c01", ctx.n(400, 30000))
+    return X.run(ctx, "c01", ctx.n(400, 30000), gen_kwargs={"allow_repeated": True})
 
 
 def search(ctx, broken):
     out = {"failures": [], "strategy": []}
     try:
-        r = X.run(ctx, "c01", ctx.n(1500, 20000), ref=True)
+        r = X.run(ctx, "c01", ctx.n(1500, 20000), ref=True,
+                  gen_kwargs={"allow_repeated": True})
         for f in r["failures"]:
             f["oracle"] = "independent"
             f["kind"] = "violation"
